@@ -169,6 +169,8 @@ var verifPrefixes = []string{
 	28: "URL /a\n)",
 	29: "TYPE @a regex\n/",
 	30: "200 regex\n/a",
+	31: "# a#b#c\nGET /a\n",
+	32: "URL /a // n # a#b#c\nGET\n",
 }
 
 // VerifH_NextTotal (C01.1, C14, C02b): for every file prefix·x with x of 0..N
